@@ -78,8 +78,16 @@ ShapeBlankSet(ts) ==
   \E i \in 1..Len(ts) : ts[i] = T_LBRACK /\ \E j \in (i + 2)..Len(ts) : ts[j] = T_RBRACK /\ \A k \in (i + 1)..(j - 1) : ts[k] = T_SPACE
 Steered(ts) == ShapeF9(ts) \/ ShapeNegNum(ts) \/ ShapeEmptyQuotes(ts) \/ ShapeBlankSet(ts)
 \* unbounded recursion (recorded, C16-e): a few thousand nested `(`, `a:(`, `+(` or `NOT ` overflow
-\* the stack and abort the process; generated nestings stay at or below MaxNesting
-MaxNesting == 500
+\* the stack and abort the process; while that stands, generated nestings stay small
+\* (Gen_Grammar!NestedDepths).  Its repair is a nesting limit: NestingLimit levels of groups / NOTs,
+\* the innermost operand counting as one.  pre^n x post^n with a nesting `pre` has n + 1 levels:
+\* within the limit a well-formed nest parses; beyond it the strict parsers return an error and the
+\* lenient ones a query together with at least one error (DeepOk, used once the repair is in).
+NestingLimit == 64
+DeepOk(n, closed, x) ==
+  LET o == [gs |-> x[1], gl |-> x[2], gle |-> x[3], qs |-> x[5], ql |-> x[6], qle |-> x[7]] IN
+  /\ n + 1 > NestingLimit => (o.gs = 1 /\ o.gl = 0 /\ o.gle >= 1 /\ o.qs = 1 /\ o.ql = 0 /\ o.qle >= 1)
+  /\ (n + 1 <= NestingLimit /\ closed) => o.gs = 0
 
 \* one observation of the four parsers on one string (codes: 0 = returned a query / AST,
 \* 1 = returned an error, 2 = panicked); gle / qle = number of errors the lenient parsers report
